@@ -421,11 +421,13 @@ class Gen:
             if rng.random() < 0.75:
                 a = self.begin()
                 v = rng.choice(['i', 'j', 'k'])
-                e.w('int'); e.sp(); e.w(v); e.osp(); e.w('='); e.osp(); e.w(str(rng.randint(0, 5)))
-                ini_txt = self.src_between(a[0], e.n)
+                e.w('int'); e.sp(); e.w(v); e.osp(); e.w('='); e.osp()
+                val = str(rng.randint(0, 5))
+                e.w(val)
                 e.tight(); e.w(';')
                 init = self.src_between(a[0], e.n)
-                self.record('variable', a, name=v, dtype='int', init=ini_txt.split('=')[1].strip(), scope='local', vis='', text=init)
+                # the initializer is the value written, not the raw text after `=` (a comment may stand between them)
+                self.record('variable', a, name=v, dtype='int', init=val, scope='local', vis='', text=init)
             else:
                 e.w(';')
             e.osp()
